@@ -1,11 +1,19 @@
 #!/bin/bash
-# tools/runall.sh quick|thorough [ids...]  - runs the registered checks one after the other and prints a summary
+# tools/runall.sh quick|thorough [ids...]  - runs the registered checks and prints a summary.
+# VERIF_PAR=n runs n checks at a time (default 1; each check already uses up to 8 processes).
 tier=${1:-quick}; shift
 ids=${@:-C01 C02 C03 C04 C05 C06 C07 C08 C09 C10 C11 C12 C13 C14 C15 C16 C17 C18 C19 C20}
 cd "$(dirname "$0")/.."
-for p in $ids; do
+one() {
+  p=$1; tier=$2
   start=$(date +%s)
   out=$(./check $p $tier 2>&1); rc=$?
   echo "$p $tier exit=$rc $(( $(date +%s) - start ))s $(echo "$out" | grep -c '^VIOLATION') violations; $(echo "$out" | grep '^KNOWN-FINDING' | cut -c1-60)"
   if [ $rc -ne 0 ]; then echo "$out" | tail -30; fi
-done
+}
+export -f one
+if [ "${VERIF_PAR:-1}" -gt 1 ]; then
+  printf '%s\n' $ids | xargs -P "$VERIF_PAR" -I{} bash -c "one {} $tier"
+else
+  for p in $ids; do one $p $tier; done
+fi
